@@ -347,6 +347,22 @@ def gen_cases(tier, seed):
         spec = {'seed': rng.randrange(1 << 30), 'config': cfg, 'transfers': [t], 'family': 'many-withheld-blocks',
                 'plan': {'gate': {'match': 's3:GetObject', 'phase': 'before', 'policy': 'lowest_last'}}}
         cases.append({'type': 'e2e', 'spec': spec})
+    # a stream whose FIRST write stalls for seconds of real time while the IO stage is full: part 0 is being written, part 2 is withheld,
+    # part 1 closes the gap (its thread holds two released blocks and waits for room), then part 3 arrives: however long anybody has to
+    # wait, the stream is written in order.  (Arrival order made by short stalls of the requests themselves.)
+    for i in range(2 if quick else 8):
+        C = 4
+        nparts = rng.choice([4, 5])
+        cfg = dict(multipart_threshold=C, multipart_chunksize=C, io_chunksize=C, max_request_concurrency=nparts, max_in_memory_download_chunks=8,
+                   max_io_queue_size=1, num_download_attempts=2)
+        faults = [{'at': 't0/dst:write#0', 'phase': 'before', 'kind': 'stall', 'secs': 7.0 if quick else rng.choice([7.0, 10.0]), 'tag': 'STALL-w'},
+                  {'at': f't0/s3:GetObject:{C}#0', 'phase': 'before', 'kind': 'stall', 'secs': 0.5, 'tag': 'STALL-1'},
+                  {'at': f't0/s3:GetObject:{3 * C}#0', 'phase': 'before', 'kind': 'stall', 'secs': 1.0, 'tag': 'STALL-3'}]
+        if nparts == 5:
+            faults.append({'at': f't0/s3:GetObject:{4 * C}#0', 'phase': 'before', 'kind': 'stall', 'secs': 1.5, 'tag': 'STALL-4'})
+        spec = {'seed': rng.randrange(1 << 30), 'config': cfg, 'transfers': [{'kind': 'download', 'dst': 'nonseekable', 'size': nparts * C}],
+                'family': 'stalling-stream', 'wall_timeout': 60.0, 'plan': {'faults': faults}}
+        cases.append({'type': 'e2e', 'spec': spec})
     # real-scale blocks: io_chunksize (the size of the blocks handed to the destination) above and around 1 MiB, objects of a few MiB,
     # single-request and ranged
     MB = 1024 * 1024
